@@ -18,6 +18,7 @@ def run(check):
     check.guarded("METHOD-NAME-KEPT", X.rule_method_name_kept)
     check.guarded("OPTCHAIN-SPINE", X.rule_optchain_spine)
     check.guarded("INPUT-UNTOUCHED", X.rule_input_untouched)
+    check.guarded("NOT-MODIFIED-UNTOUCHED", X.rule_not_modified_untouched)
     return {
         "explanation": "Inventory of every AST node kind constructed in the build against the documented instrumentation shapes, per-function single-use (fan-out) analysis of input sub-trees copied into constructed output, completeness of operand processing, and the print path.",
         "assumptions": ["swc prints untouched nodes faithfully", "clones of AST nodes are structurally equal to their source"],
